@@ -76,6 +76,13 @@ Theorem C16_metadata_entry_from_source :
   (forall v, v <> "Null"%string -> v <> "Object"%string -> meta_of_shape slpp_meta_arms (MsOther v) = None).
 Proof. split; [vm_compute; tauto | exact meta_arms_from_source]. Qed.
 
+From Peppi Require Import Gen.SlppWriteSrc Proofs.SlppWriteLayout.
+(* the metadata entry is the JSON of the game's metadata option itself (regenerated content table): absent stays absent *)
+Theorem C16_slpp_writer_from_source : forall enc_peppi enc_meta enc_start enc_end enc_frames o g,
+  slpp_write enc_peppi enc_meta enc_start enc_end enc_frames (comp_of_opts o) g =
+  slpp_write_tbl enc_peppi enc_meta enc_start enc_end enc_frames o g.
+Proof. exact slpp_write_from_source. Qed.
+
 Print Assumptions C16_write_ok.
 Print Assumptions C16_read_write.
 Print Assumptions C16_truncated_rejected.
@@ -88,3 +95,4 @@ Print Assumptions C16_map_reader_from_source.
 Print Assumptions C16_depth_guard_from_source.
 Print Assumptions C16_writer_bodies_from_source.
 Print Assumptions C16_metadata_entry_from_source.
+Print Assumptions C16_slpp_writer_from_source.
